@@ -352,11 +352,21 @@ def e2e_versions_worker(job):
     and is shorter / equally long / longer than what is written (leftovers of an earlier transfer)"""
     acc = core.Acc()
     root = os.path.join(SCRATCH, 'e2v-%d' % os.getpid())
-    for v, op, old_len in job:
+    for item in job:
+        v, op, old_len = item[:3]
+        src_len, opt = (item[3], item[4]) if len(item) > 3 else (3000, 'plain')
+        kw = {}
+        progress = []
+        if 'progress' in opt:
+            kw['progress_handler'] = lambda sp, dp, done, total: progress.append((done, total))
+        if 'nonsparse' in opt:
+            kw['sparse'] = False
+        if 'blocks' in opt:
+            kw.update(block_size=1024, max_requests=3)
         shutil.rmtree(root, ignore_errors=True)
         os.makedirs(os.path.join(root, 'srv'))
         os.makedirs(os.path.join(root, 'loc'))
-        src = content(3000, v)
+        src = content(src_len, v)
         old = content(old_len, 9)[:old_len] if old_len is not None else None
         loop = P.fresh(0)
         viol = []
@@ -378,17 +388,17 @@ def e2e_versions_worker(job):
                     if op == 'put':
                         put(os.path.join(ld, 'in'), src)
                         put(os.path.join(sd, 'dst'), old)
-                        await sftp.put(os.path.join(ld, 'in'), 'dst')
+                        await sftp.put(os.path.join(ld, 'in'), 'dst', **kw)
                         out['want'], out['got'] = src, open(os.path.join(sd, 'dst'), 'rb').read()
                     elif op == 'get':
                         put(os.path.join(sd, 'f'), src)
                         put(os.path.join(ld, 'dst'), old)
-                        await sftp.get('f', os.path.join(ld, 'dst'))
+                        await sftp.get('f', os.path.join(ld, 'dst'), **kw)
                         out['want'], out['got'] = src, open(os.path.join(ld, 'dst'), 'rb').read()
                     elif op == 'copy':
                         put(os.path.join(sd, 'f'), src)
                         put(os.path.join(sd, 'dst'), old)
-                        await sftp.copy('f', 'dst')
+                        await sftp.copy('f', 'dst', **kw)
                         out['want'], out['got'] = src, open(os.path.join(sd, 'dst'), 'rb').read()
                     elif op in ('open-wb', 'open-w'):
                         put(os.path.join(sd, 'dst'), old)
@@ -460,16 +470,18 @@ def e2e_versions_worker(job):
                     viol.append(('corrupt-result', 'SFTP v%d %s onto a destination of %s bytes: destination has %d bytes, expected %d; '
                                  'equal prefix %d' % (v, op, old_len, len(g), len(w),
                                                       next((i for i, (a, b) in enumerate(zip(g, w)) if a != b), min(len(g), len(w))))))
+                if 'progress' in opt and not viol and (not progress or progress[-1] != (src_len, src_len)):
+                    viol.append(('progress-misreported', 'last progress report %r for a %d-byte transfer' % (progress[-1:] , src_len)))
             if loop.unretrieved():
                 viol.append(('loop-exception', repr(loop.exc_log[0].get('exception'))[:200]))
         except Livelock as exc:
             viol.append(('livelock', str(exc)))
         finally:
             P.done(loop)
-        acc.add(core.digest(('e2v', v, op, old_len)), transitions=1,
+        acc.add(core.digest(('e2v',) + tuple(item)), transitions=1,
                 sample={'sftp_version': v, 'operation': op, 'existing_destination_bytes': old_len} if v == 6 and op == 'put' and old_len == 5000 else None)
         for k, d in viol:
-            acc.violation('sftp:%s:v%d-%s' % (k, v, op), d, {'e2v': [v, op, old_len]})
+            acc.violation('sftp:%s:v%d-%s%s' % (k, v, op, '' if opt == 'plain' else '-' + opt), d + ('' if len(item) == 3 else ' ; source %d bytes, options %s' % (src_len, opt)), {'e2v': list(item)})
     shutil.rmtree(root, ignore_errors=True)
     return acc
 
@@ -477,6 +489,9 @@ def e2e_versions_worker(job):
 def e2v_jobs():
     cases = [(v, op, old) for v in (3, 4, 5, 6) for op in ('put', 'get', 'copy', 'open-wb', 'open-w', 'open-r+b', 'open-ab', 'open-xb', 'open-text', 'open-text-seek', 'open-text-read')
              for old in (None, 0, 100, 3000, 5000)]
+    # transfer options x source sizes (empty, one byte, several blocks) onto absent / empty / longer destinations
+    cases += [(v, op, old, n, opt) for v in (3, 6) for op in ('put', 'get', 'copy') for old in (None, 0, 2160)
+              for n in (0, 1, 3000, 70000) for opt in ('progress', 'nonsparse', 'progress+nonsparse', 'blocks', 'progress+blocks')]
     return [cases[i::16] for i in range(16)]
 
 
@@ -621,7 +636,7 @@ def main(tier, seed):
             'deviation-bounded DFS; oracle = model file store; plus end-to-end get/put/copy of tmpfs sparse files '
             'with 1..129 (thorough 300) page-sized data extents through a real asyncssh SFTP server; put/get/copy and '
             'open in wb/w/r+b/ab/xb and text mode (multi-byte characters, consecutive writes, seek) under SFTP versions 3-6 onto destinations that are absent, empty, shorter, '
-            'equal or longer; a tree with files of 7 sizes, a subdirectory and 9 symbolic links (target text shorter and longer than '
+            'equal or longer; get/put/copy of 0, 1, 3000 and 70000 bytes with a progress handler, sparse off, small blocks (v3, v6) onto absent, empty and longer destinations; a tree with files of 7 sizes, a subdirectory and 9 symbolic links (target text shorter and longer than '
             'the named file) by get/put/copy recurse, by mget/mput/mcopy pattern and link by link, follow_symlinks on/off, versions 3 and 6')
     return core.finish(PROP, tier, seed, 'model_checking', acc, t0, rule,
                        {'jobs': len(js), 'deviation_bound': '2 (1 for block size 8)' if tier == 'quick' else 3},
